@@ -109,3 +109,30 @@ def bytesOfTok? (s : String) : Option Bytes :=
 def tokOfBytes (b : Bytes) : String := if b.isEmpty then "-" else hexOfBytes b
 
 end TinkVerif
+
+namespace TinkVerif.Bytes
+
+theorem toNatBE_append_singleton (b : Bytes) (x : UInt8) : toNatBE (b ++ [x]) = toNatBE b * 256 + x.toNat := by
+  simp [toNatBE, List.foldl_append]
+
+theorem toNatBE_ofNatBE (k n : Nat) : toNatBE (ofNatBE k n) = n % 256 ^ k := by
+  induction k generalizing n with
+  | zero => simp [ofNatBE, toNatBE, Nat.mod_one]
+  | succ k ih =>
+    rw [ofNatBE, toNatBE_append_singleton, ih]
+    have h1 : (UInt8.ofNat (n % 256)).toNat = n % 256 := by
+      simp [UInt8.toNat_ofNat']
+    rw [h1, Nat.pow_succ]
+    have := Nat.mod_mul_left_div_self n 256 (256 ^ k)
+    -- n % (256^k * 256) = (n / 256 % 256^k) * 256 + n % 256
+    have h2 : n % (256 ^ k * 256) = n % 256 + 256 * (n / 256 % 256 ^ k) := by
+      rw [Nat.mul_comm (256 ^ k) 256]; exact Nat.mod_mul
+    omega
+
+/-- big-endian fixed-width encoding is injective below 256^k -/
+theorem ofNatBE_inj (k a b : Nat) (ha : a < 256 ^ k) (hb : b < 256 ^ k)
+    (h : ofNatBE k a = ofNatBE k b) : a = b := by
+  have := congrArg toNatBE h
+  rwa [toNatBE_ofNatBE, toNatBE_ofNatBE, Nat.mod_eq_of_lt ha, Nat.mod_eq_of_lt hb] at this
+
+end TinkVerif.Bytes
